@@ -52,8 +52,10 @@ type memRig struct {
 	records   []memRecord
 	applied   []*injected // expected on every node
 	refused   []*injected // must be applied nowhere
-	mintDay   uint64      // day of the latest finalized mint
-	ownAccept bool        // build acceptance transactions without the node's builder when it refuses
+	cust      []*custState
+	mintDay   uint64 // day of the latest finalized mint
+	purge     bool   // a candidate opened a round of its own: pools must be purged
+	ownAccept bool   // build acceptance transactions without the node's builder when it refuses
 	seq       int
 }
 
@@ -277,28 +279,7 @@ func (m *memRig) placeOn(owner crypto.Hash, tx *common.VersionedTransaction, exp
 			return nil
 		}
 	} else {
-		// a candidate that must be refused: do not advance the chain model
-		ts := m.inj.now
-		if ts <= ch.lastTime {
-			ts = ch.lastTime + 1
-		}
-		number, refs := ch.number, ch.refs
-		if len(ch.snaps) > 0 {
-			_, final := roundHashRef(ch.id, ch.number, ch.snaps)
-			ext := m.inj.pickExternal(ch)
-			if ext == nil {
-				return nil
-			}
-			number, refs = ch.number+1, &common.RoundLink{Self: final, External: ext.hash}
-		}
-		s := &common.Snapshot{Version: common.SnapshotVersionCommonEncoding, NodeId: owner, RoundNumber: number, References: refs.Copy(), Timestamp: ts}
-		s.AddTransaction(tx.PayloadHash())
-		s.Hash = s.PayloadHash()
-		s.Signature = m.certify(s, 0, -1)
-		if s.Signature == nil {
-			return nil
-		}
-		it = &injected{snap: s, tx: tx, chain: ch, applied: map[int]bool{}}
+		return m.candidate(owner, []*common.VersionedTransaction{tx}, 0)
 	}
 	m.send(it)
 	return it
@@ -463,34 +444,68 @@ func (m *memRig) refuseCandidate(it *injected, wait time.Duration) int {
 	m.send(it)
 	m.c.Run(m.c.Q.Now + wait)
 	m.refused = append(m.refused, it)
-	return m.anywhere(it)
+	where := m.anywhere(it)
+	if m.purge {
+		m.purgePools()
+	}
+	return where
 }
 
 // multi builds a validly certified snapshot holding several transactions on
 // the chain of owner (not adopted by the chain model).
 func (m *memRig) multi(owner crypto.Hash, txs []*common.VersionedTransaction, ts uint64) *injected {
+	return m.candidate(owner, txs, ts)
+}
+
+// candidate builds (without sending) a validly certified snapshot that the
+// rules forbid; the chain model does not adopt it. A node tries only the
+// first pending snapshot of a round it has not opened yet, so a certified but
+// invalid snapshot that would open a round shadows every later snapshot of
+// that round - a state honest signers cannot produce. To keep the history
+// realistic the candidate therefore joins the chain's open round: a fresh
+// ordinary snapshot opens a round at the current instant and the candidate
+// carries the same round number and references. With an explicit timestamp
+// in the past that is impossible; the candidate then opens a round of its own
+// and the nodes are restarted afterwards (purge), which drops their pools.
+func (m *memRig) candidate(owner crypto.Hash, txs []*common.VersionedTransaction, ts uint64) *injected {
 	ch := m.inj.chainFor(owner)
 	if ch == nil {
 		return nil
 	}
-	old := ts != 0
+	var number uint64
+	var refs *common.RoundLink
 	if ts == 0 {
+		m.inj.now = m.now()
+		open, err := m.inj.nextWith(m.inj.chainIndex(owner), true, nil)
+		if err != nil {
+			return nil
+		}
+		m.send(open)
+		if !m.settle(open, 10*time.Second) {
+			m.r.out.Probes["round_opener_not_applied"]++
+			return nil
+		}
+		m.applied = append(m.applied, open)
 		ts = m.now()
 		if ts <= ch.lastTime {
 			ts = ch.lastTime + 1
 		}
-	}
-	number, refs := ch.number, ch.refs
-	if len(ch.snaps) > 0 {
-		_, final := roundHashRef(ch.id, ch.number, ch.snaps)
-		ext := m.inj.pickExternal(ch)
-		if old {
-			ext = m.externalBefore(ch, ts)
-		}
-		if ext == nil {
+		if start, _ := ch.span(); ts >= start+config.SnapshotRoundGap || m.dayOf(ts) != m.dayOf(start) {
+			m.r.out.Probes["round_closed_before_candidate"]++
 			return nil
 		}
-		number, refs = ch.number+1, &common.RoundLink{Self: final, External: ext.hash}
+		number, refs = ch.number, ch.refs
+	} else {
+		number, refs = ch.number, ch.refs
+		if len(ch.snaps) > 0 {
+			_, final := roundHashRef(ch.id, ch.number, ch.snaps)
+			ext := m.externalBefore(ch, ts)
+			if ext == nil {
+				return nil
+			}
+			number, refs = ch.number+1, &common.RoundLink{Self: final, External: ext.hash}
+		}
+		m.purge = true
 	}
 	s := &common.Snapshot{Version: common.SnapshotVersionCommonEncoding, NodeId: owner, RoundNumber: number, References: refs.Copy(), Timestamp: ts}
 	hs := make([]crypto.Hash, len(txs))
@@ -507,6 +522,24 @@ func (m *memRig) multi(owner crypto.Hash, txs []*common.VersionedTransaction, ts
 		return nil
 	}
 	return &injected{snap: s, tx: txs[0], extra: txs[1:], chain: ch, applied: map[int]bool{}}
+}
+
+// purgePools restarts every live node, which empties the in-memory pools.
+func (m *memRig) purgePools() {
+	for i := 0; i < m.c.Cfg.Nodes && !m.c.Halt; i++ {
+		n := m.c.Nodes[i]
+		if !n.Alive {
+			continue
+		}
+		m.c.Crash(n, false)
+		m.r.fault("crash.step_boundary", m.c.Q.Now)
+		if err := m.c.Restart(n); err != nil {
+			m.c.Violate("C22", "restart-failed", err.Error(), n)
+			return
+		}
+	}
+	m.c.Run(m.c.Q.Now + time.Second)
+	m.purge = false
 }
 
 // modelAccepted lists the identities that are accepted at instant ts
@@ -615,5 +648,210 @@ func (m *memRig) mint() bool {
 	}
 	m.mintDay = m.dayOf(it.snap.Timestamp)
 	m.record("mint", m.identOf(elected), it)
+	return true
+}
+
+// ---- custodian updates -------------------------------------------------
+
+type custEntry struct {
+	node *memIdent
+	cust common.Address // custodian key pair of the entry
+}
+
+type custState struct {
+	account common.Address
+	entries []custEntry
+	tx      crypto.Hash
+	ts      uint64
+}
+
+// custNow is the rig's model of the current custodian state; index 0 of the
+// history is the genesis state.
+func (m *memRig) custNow() *custState {
+	if len(m.cust) == 0 {
+		g := &custState{account: m.c.Domain, ts: uint64(m.c.Epoch.UnixNano())}
+		for i := 0; i < m.c.Cfg.Nodes; i++ {
+			g.entries = append(g.entries, custEntry{m.idents[i], m.c.Custodians[i]})
+		}
+		_, _, txs, _ := m.c.Gns.BuildSnapshots()
+		g.tx = txs[len(txs)-1].PayloadHash()
+		if all, err := m.ref().Store.ListCustodianUpdates(); err == nil && len(all) > 0 {
+			g.ts = all[0].Timestamp // position of the genesis record; everything else about it is checked against the model
+		}
+		m.cust = append(m.cust, g)
+	}
+	return m.cust[len(m.cust)-1]
+}
+
+func (m *memRig) freshAccount(tag string) common.Address {
+	m.seq++
+	seed := make([]byte, 64)
+	m.rng.Bytes(seed)
+	a := common.NewAddressFromSeed(seed)
+	return a
+}
+
+// custPrice is the documented price of moving from prev to next: 100 per
+// custodian key that is new, 1 per kept key whose payee changed.
+func custPrice(prev *custState, next []custEntry) int {
+	old := map[crypto.Key]crypto.Key{}
+	for _, e := range prev.entries {
+		old[e.cust.PublicSpendKey] = e.node.payee.PublicSpendKey
+	}
+	total := 0
+	for _, e := range next {
+		p, ok := old[e.cust.PublicSpendKey]
+		if !ok {
+			total += 100
+		} else if p != e.node.payee.PublicSpendKey {
+			total += 1
+		}
+	}
+	return total
+}
+
+func (m *memRig) custEncode(e custEntry) []byte {
+	return common.EncodeCustodianNode(&e.cust, &e.node.payee, &e.node.signer.PrivateSpendKey, &e.node.payee.PrivateSpendKey, &e.cust.PrivateSpendKey, m.c.NetworkId)
+}
+
+// custAssemble encodes an update: account || entries || approval.
+func custAssemble(account common.Address, raw [][]byte, approver *common.Address, sorted bool) []byte {
+	raw = append([][]byte{}, raw...)
+	if sorted {
+		sort.SliceStable(raw, func(i, j int) bool { return string(raw[i][1:33]) < string(raw[j][1:33]) })
+	}
+	extra := append(append([]byte{}, account.PublicSpendKey[:]...), account.PublicViewKey[:]...)
+	for _, r := range raw {
+		extra = append(extra, r...)
+	}
+	sig := approver.PrivateSpendKey.Sign(crypto.Blake3Hash(extra))
+	return append(extra, sig[:]...)
+}
+
+func (m *memRig) custExtra(account common.Address, entries []custEntry, approver *common.Address, sorted bool) []byte {
+	raw := make([][]byte, len(entries))
+	for i, e := range entries {
+		raw[i] = m.custEncode(e)
+	}
+	return custAssemble(account, raw, approver, sorted)
+}
+
+// custTx wraps an extra into a funded, signed custodian update transaction.
+func (m *memRig) custTx(account common.Address, extra []byte, coin *cluster.Coin, amount common.Integer, refs []crypto.Hash) *common.VersionedTransaction {
+	tx := common.NewTransactionV5(common.XINAssetId)
+	tx.AddInput(coin.Tx, coin.Index)
+	tx.AddOutputWithType(common.OutputTypeCustodianUpdateNodes, []*common.Address{&account}, common.NewThresholdScript(common.Operator64), amount, append(make([]byte, 63), 1))
+	if change := coin.Amount.Sub(amount); change.Sign() > 0 {
+		tx.AddScriptOutput([]*common.Address{m.c.User(0)}, common.NewThresholdScript(1), change, append(make([]byte, 63), 2))
+	}
+	tx.Extra = extra
+	tx.References = refs
+	signed := &common.SignedTransaction{Transaction: *tx}
+	if err := signed.SignUTXO(coin.UTXO, []*common.Address{m.c.User(0)}); err != nil {
+		panic(err)
+	}
+	return signed.AsVersioned()
+}
+
+// fund finalizes a XIN deposit of the given amount owned by user 0.
+func (m *memRig) fund(amount common.Integer) *cluster.Coin {
+	acc := m.accepted()
+	m.seq++
+	tx, coin := m.c.MakeDeposit(cluster.AssetXIN, amount, fmt.Sprintf("fund-%d", m.seq), 0, []int{0}, 1)
+	it := m.placeOn(acc[m.rng.IntN(len(acc))].id, tx, true)
+	if it == nil || !m.settle(it, 20*time.Second) {
+		return nil
+	}
+	m.applied = append(m.applied, it)
+	return coin
+}
+
+// custJump moves to an instant at which custodian updates are allowed
+// (outside the mint window and the hour on each side of it).
+func (m *memRig) custJump() {
+	hours := []int{0, 1, 2, 3, 4, 11, 12, 13, 15, 18, 20, 22, 23}
+	m.jumpTo(hours[m.rng.IntN(len(hours))], 0)
+}
+
+// custNext draws the next custodian state: a new account, entries for a
+// random set of at least seven known members; custodian keys are kept, moved
+// to another member or fresh.
+func (m *memRig) custNext() (common.Address, []custEntry) {
+	prev := m.custNow()
+	acc := m.accepted()
+	perm := m.rng.Perm(len(acc))
+	k := 7 + m.rng.IntN(len(acc)-6)
+	var pool []common.Address
+	for _, e := range prev.entries {
+		pool = append(pool, e.cust)
+	}
+	m.rng.Shuffle(len(pool), func(i, j int) { pool[i], pool[j] = pool[j], pool[i] })
+	prevOf := map[int]common.Address{}
+	for _, e := range prev.entries {
+		prevOf[e.node.idx] = e.cust
+	}
+	used := map[crypto.Key]bool{}
+	var entries []custEntry
+	for _, pi := range perm[:k] {
+		id := acc[pi]
+		var key common.Address
+		switch r := m.rng.IntN(10); {
+		case r < 5:
+			if old, ok := prevOf[id.idx]; ok && !used[old.PublicSpendKey] {
+				key = old
+			}
+		case r < 7:
+			for _, cand := range pool {
+				if !used[cand.PublicSpendKey] {
+					key = cand
+					break
+				}
+			}
+		}
+		if !key.PublicSpendKey.HasValue() || used[key.PublicSpendKey] {
+			key = m.freshAccount("cust")
+		}
+		used[key.PublicSpendKey] = true
+		entries = append(entries, custEntry{id, key})
+	}
+	return m.freshAccount("custodian"), entries
+}
+
+// custodian performs a valid custodian update at an allowed hour.
+func (m *memRig) custodian() bool {
+	m.custJump()
+	return m.custodianNow()
+}
+
+// custodianNow performs a valid custodian update at the current instant.
+func (m *memRig) custodianNow() bool {
+	prev := m.custNow()
+	account, entries := m.custNext()
+	price := custPrice(prev, entries)
+	pay := price + m.rng.IntN(3)*m.rng.IntN(2)
+	if pay == 0 {
+		pay = 1
+	}
+	amount := common.NewInteger(uint64(pay))
+	coin := m.fund(amount) // the update must be the only output: no change
+	if coin == nil {
+		m.r.out.Probes["funding_deposit_not_applied"]++
+		return false
+	}
+	ts := m.now()
+	extra := m.custExtra(account, entries, &prev.account, true)
+	tx := m.custTx(account, extra, coin, amount, m.lastConsensusTx())
+	elected := m.ref().Node.SimElect(common.TransactionTypeCustodianUpdateNodes, ts)
+	it := m.placeOn(elected, tx, true)
+	if it == nil || !m.settle(it, 20*time.Second) {
+		m.r.out.Probes["valid_custodian_update_not_applied"]++
+		if it != nil {
+			m.c.Trace.Logf(m.c.Q.Now, "valid custodian update not applied: snapshot %s tx %s chain %s ts %d refs %v last %v", it.snap.Hash, tx.PayloadHash(), elected, it.snap.Timestamp, tx.References, m.ref().Node.SimLastConsensusSnapshot())
+		}
+		return false
+	}
+	m.cust = append(m.cust, &custState{account: account, entries: entries, tx: tx.PayloadHash(), ts: it.snap.Timestamp})
+	m.c.Domain = account // deposits are authorized by the current custodian
+	m.record("custodian", m.identOf(elected), it)
 	return true
 }
